@@ -329,21 +329,32 @@ pub fn parse_and_bind<R: FsModuleResolver>(
         let renamed = unresolved.renamed;
         let js_word = unresolved.name.clone();
         let k = unresolved.name.to_string();
+        // `export { A }` exports every meaning of A: a type alias / interface AND a value may share
+        // the name
+        let mut found_type = false;
         if let Some(ts_type) = locals.content.type_aliases.get(&k) {
             symbol_exports.insert_type(
                 renamed.to_string(),
                 Rc::new(SymbolExport::TsType {
                     decl: ts_type.clone(),
                     original_file: file_name.clone(),
-                    name: k,
+                    name: k.clone(),
                     span: ts_type.span,
                 }),
             );
-            continue;
+            found_type = true;
         }
 
         if let Some(enum_) = locals.content.enums.get(&k) {
             symbol_exports.insert_type(
+                renamed.to_string(),
+                Rc::new(SymbolExport::TsEnumDecl {
+                    decl: enum_.clone(),
+                    original_file: file_name.clone(),
+                }),
+            );
+            // an enum is a value as well
+            symbol_exports.insert_value(
                 renamed.to_string(),
                 Rc::new(SymbolExport::TsEnumDecl {
                     decl: enum_.clone(),
@@ -362,7 +373,7 @@ pub fn parse_and_bind<R: FsModuleResolver>(
                     span: intf.span,
                 }),
             );
-            continue;
+            found_type = true;
         }
 
         if let Some(v) = locals.content.exprs.get(&k) {
@@ -391,6 +402,10 @@ pub fn parse_and_bind<R: FsModuleResolver>(
             continue;
         }
 
+        if found_type {
+            continue;
+        }
+
         if let Some(import) = v.imports.get(&k) {
             match &**import {
                 ImportReference::Named {
@@ -414,8 +429,15 @@ pub fn parse_and_bind<R: FsModuleResolver>(
                     );
                 }
 
-                ImportReference::Default { .. } => {
-                    continue;
+                ImportReference::Default { file_name, .. } => {
+                    // import D from "./a"; export { D }: passes on the default export of a.ts
+                    symbol_exports.insert_unknown(
+                        renamed.to_string(),
+                        Rc::new(SymbolExport::SomethingOfOtherFile {
+                            something: "default".to_string(),
+                            file: file_name.clone(),
+                        }),
+                    );
                 }
             }
         }
